@@ -6,6 +6,7 @@ package main
 
 import (
 	"encoding/json"
+	"strings"
 )
 
 // rows are built by AddRowItems, NewRow+Add+AddRow or NewRowSizedFor+Add+AddRow
@@ -58,7 +59,86 @@ func c03Gen(r *RNG, tier string) []json.RawMessage {
 		n, nc = 6000, 3
 	}
 	for i := 0; i < n; i++ {
-		add(randTable(r, 5, 4, textItem, textHows), withCustom(nc))
+		ts := randTable(r, 5, 4, textItem, textHows)
+		switch {
+		case r.Pct(25):
+			// render, shape-preserving change (late cells into a ragged row, same-count second header), render again
+			lateEnrich(r, &ts, widerText)
+		case r.Pct(30):
+			enrichSpec(r, &ts, textItem)
+		}
+		add(ts, withCustom(nc))
+	}
+	// multi-step histories on one reused wrapper, systematically: a render of
+	// the whole grid, then wider content arrives without changing the shape
+	for _, wide := range []string{"considerably wider", "日本語日本語日本語日本語", "two\nlines, the second much wider", longText(0, 70)} {
+		for variant := 0; variant < 4; variant++ {
+			h := []ItemSpec{Str("h1"), Str("h2"), Str("h3")}
+			ts := TableSpec{Header: &h, Rows: []RowSpec{
+				{Cells: []ItemSpec{Str("a")}, How: []int{0, 1, 3, 0}[variant]},
+				{Cells: []ItemSpec{Str("b"), Str("c"), Str("d")}},
+				{Sep: true},
+				{Cells: []ItemSpec{}},
+			}, Stages: []int{3}}
+			switch variant {
+			case 0: // a late cell into the ragged first row
+				ts.Rows[0].Late = []ItemSpec{Str(wide)}
+				ts.Rows[0].LateAfter = 9
+			case 1: // late cells into the zero-cell row
+				ts.Rows[3].Late = []ItemSpec{Str("x"), Str(wide)}
+				ts.Rows[3].LateAfter = 9
+			case 2: // headers replaced by as many, wider ones
+				h2 := []ItemSpec{Str(wide), Str("h2"), Str(wide)}
+				ts.Header2 = &h2
+			case 3: // both, and an early render as well
+				ts.Rows[0].Late = []ItemSpec{Str("y"), Str(wide)}
+				ts.Rows[0].LateAfter = 9
+				h2 := []ItemSpec{Str("H"), Str(wide), Str("h3")}
+				ts.Header2 = &h2
+				ts.Stages = []int{0, 3}
+			}
+			add(ts, []DecSpec{reg[(variant)%len(reg)], {Name: "none"}})
+		}
+	}
+	// sizes beyond small thresholds in every dimension: wide cells (and so
+	// long runs of padding and rule glyphs) next to short / empty / missing
+	// cells, tall cells, many columns, many rows
+	k := 0
+	for _, n := range longSizes {
+		for kind := 0; kind < 3; kind++ {
+			k++
+			h := []ItemSpec{Str("h"), Str("")}
+			ts := TableSpec{Header: &h, Rows: []RowSpec{
+				{Cells: []ItemSpec{Str(longText(kind, n)), Str("s")}},
+				{Cells: []ItemSpec{Str("short"), Str(longText((kind+1)%3, n+1) + "\nx")}},
+				{Cells: []ItemSpec{Str("")}},
+				{Cells: []ItemSpec{}},
+			}}
+			add(ts, []DecSpec{[]DecSpec{{Name: "ascii-simple"}, {Name: "none"}, {Name: "utf8-light"}}[k%3]})
+		}
+	}
+	for _, lines := range []int{17, 65, 130} {
+		tall := strings.Repeat("l\n", lines-1) + "last and widest"
+		add(TableSpec{Rows: []RowSpec{{Cells: []ItemSpec{Str("x"), Str(tall), Str("日")}}, {Cells: []ItemSpec{Str(tall)}}}}, []DecSpec{{Name: "ascii-simple"}, {Name: "none"}})
+	}
+	for _, cols := range []int{17, 65, 130} {
+		cs := make([]ItemSpec, cols)
+		for i := range cs {
+			cs[i] = Str(pick(r, []string{"", "a", "日", "bb"}))
+		}
+		hd := []ItemSpec{Str("only")}
+		add(TableSpec{Header: &hd, Rows: []RowSpec{{Cells: cs}, {Cells: cs[:cols/2], How: 1}}}, []DecSpec{{Name: "ascii-simple"}, {Name: "none"}})
+	}
+	for _, nrows := range []int{33, 65, 130} {
+		var rows []RowSpec
+		for i := 0; i < nrows; i++ {
+			if i%13 == 7 {
+				rows = append(rows, RowSpec{Sep: true})
+			} else {
+				rows = append(rows, RowSpec{Cells: []ItemSpec{Str(pick(r, []string{"", "a", "日本", "b\nc"})), Str("z")}[:1+i%2]})
+			}
+		}
+		add(TableSpec{Rows: rows}, []DecSpec{{Name: "ascii-simple"}})
 	}
 	// separators first / last / consecutive with a header longer than the body
 	for i := 0; i < 12; i++ {
@@ -78,6 +158,8 @@ func init() {
 		Rule: "tables built through the public API (AddHeaders / AddRowItems / NewRow+Add+AddRow / NewRowSizedFor / AddSeparator), each rendered under every registered decoration " +
 			"(decoration.RegisteredDecorationNames, fields dumped by reflection at run time) and under random custom decorations (random subset of the 22 fields, then Populate; some from NoBox(), some left incomplete); " +
 			"every shape with header in {none,0,1,2 cells} and up to 2 rows over {separator,0,1,2 cells}; every atom of a hostile alphabet (ASCII, CJK, full-width, combining incl. leading, ZWSP, ZWJ, VS16, ZWJ emoji, flags, tab, CR, escapes, multi-line, trailing newlines, invalid UTF-8) in first/middle/last column of a fixed grid; random grids to 4x5; " +
+			"multi-step histories through ONE reused wrapper (TableSpec.BuildRender: renders at Stages, then shape-preserving changes - cells appended with Row.Add to ragged rows already attached, a second AddHeaders of the same count - then the judged render), systematically on a fixed grid and on a quarter of the random grids; early column properties, rows attached twice (enrichSpec); sizes beyond small thresholds: cells of 63..300 display cells (ASCII, double-width, mixed) next to short / empty / missing cells, cells of 17..130 lines, 17..130 columns, 33..130 rows; " +
+			"the expected view is computed from the SPEC alone (TableSpec.SpecView: texts, per-line measured sizes, shape, properties), not read back from the table under test; " +
 			"a case (one table x its decorations) is non-trivial when the table has at least one column; distinct = distinct (oracle table, view, decorations, outcomes); " +
 			"the width oracle is length.StringCells of each text line and glyph; incomplete custom decorations and zero-column tables are outside the statement and only checked for model = implementation",
 		Exhaustive: "shapes (header x row-sequence up to length 2) x all registered decorations; every alphabet atom in 3 column positions",
